@@ -14,8 +14,8 @@ CLOSERS = ["Next", "Submit", "Skip", "Remove", "Abort", "Error", "Back"]
 
 
 class RaceRun(Run):
-    R_SKIP = Run.R_SKIP + ("reference",)
-    reference = None  # shared by the paths of one exploration: (target, kind, pre) -> (accepted, task counts) of the sequential schedule
+    R_SKIP = Run.R_SKIP + ("seq_reference",)
+    seq_reference = None  # shared by the paths of one exploration: (target, kind, pre) -> (accepted, task counts) of the sequential schedule
 
     def run(self, snaps=None):
         I = self.I
@@ -72,13 +72,13 @@ class RaceRun(Run):
         if R.preempted_at is None:
             # the sequential schedule A;B is the reference for every schedule of the same calls (it is always explored first: every
             # pre-empted path is an alternative of it)
-            self.reference[key] = (n_ok, after)
+            self.seq_reference[key] = (n_ok, after)
             if n_ok == 0:
                 self.viol("race:none-accepted:action=%s" % kind, "%s on the open act %s was refused for both callers even one after the other" % (kind, t["nid"]))
             return
-        if key not in self.reference:
+        if key not in self.seq_reference:
             raise Unsupported("race: sequential reference missing for %r" % (key,))
-        ref_ok, ref_after = self.reference[key]
+        ref_ok, ref_after = self.seq_reference[key]
         if call_panics:
             self.viol("race:panic:action=%s" % kind, "a racing %s panicked: %s" % (kind, call_panics[-1][1][:200]))
         if n_ok != ref_ok:
@@ -172,7 +172,7 @@ def run_race(I, name, cfg_kw, prop):
 
     def one(I, res):
         r = RaceRun(I, res, name, cfg, prop)
-        r.reference = reference
+        r.seq_reference = reference
         r.inputs = concrete_inputs(r.inputs)   # the race clause does not depend on the input valuation: one concrete valuation
         orig = r.install_event_monitor
 
@@ -192,6 +192,141 @@ def run_race(I, name, cfg_kw, prop):
             v.confirmed, v.replay = seen[v.role]
             continue
         okc, info = confirm(v, name)
+        v.confirmed, v.replay = okc, info
+        seen[v.role] = (okc, info)
+    return res
+
+
+# ----------------------------------------------------------------------------------------------- two client threads on two DIFFERENT open acts
+class PairRaceRun(RaceRun):
+    """Thread A completes one open act while thread B completes another one of the same process (B's whole call at one of A's lock
+    operations, or after A).  The flow oracles (C04 reference interpreter, C03 hierarchy / single terminal event) judge the outcome:
+    the result must not depend on how the two calls interleave."""
+
+    def run(self, snaps=None):
+        I = self.I
+        phase = self.restore(snaps)
+        if phase is None:
+            W = self.boot()
+            W.drain()
+            phase = 0
+            self.save(snaps, phase)
+        W = self.W
+        cands = self.open_irqs()
+        if len(cands) < 2:
+            return
+        ia = I.path.choose(len(cands), "target-a")
+        rest = [c for i, c in enumerate(cands) if i != ia]
+        ta = cands[ia]
+        tb = rest[I.path.choose(len(rest), "target-b")] if len(rest) > 1 else rest[0]
+        oa, ob = dict(self.outputs_for(ta)), dict(self.outputs_for(tb))
+
+        def run_b():
+            return W.action(self.pid, tb["tid"], "Next", ob)
+
+        R = Race(run_b, lambda idx: I.path.choose(2, "preempt") == 1)
+        I.race = R
+        R.active = True
+        try:
+            ra = W.action(self.pid, ta["tid"], "Next", oa)
+            R.finish_a(I)
+        finally:
+            R.active = False
+            I.race = None
+        rb = R.b_result
+        self.race_info = dict(a=ta["nid"], b=tb["nid"], preempted_at=R.preempted_at, site=R.preempt_site)
+        self.log.append(dict(race_pair=[ta["nid"], tb["nid"]], options=[oa, ob], preempted_at=R.preempted_at, site=R.preempt_site,
+                             accepted=[ra is not None and ra.d == 0, rb is not None and rb.d == 0]))
+        if not (ra is not None and ra.d == 0 and rb is not None and rb.d == 0):
+            self.viol("rejected", "completing two different open acts concurrently: one call was rejected (%s)" % self.race_info)
+        W.drain()
+        self.res.witnesses += 1
+        self.at_quiescence("race")
+        self.answer_all()
+        self.at_end()
+        if len(self.res.samples) < 3:
+            self.res.samples.append(dict(scenario=self.name, race_pair=[ta["nid"], tb["nid"]], lock_operations_of_A=R.count, preempted_at=R.preempted_at,
+                                         final=[(t["nid"], t["state"]) for t in self.tasks()]))
+
+    def viol(self, role, desc, detail=None):
+        I = self.I
+        m = I.model()
+        model = {k: str(m.eval(v, model_completion=True)) for k, v in self.sym.items()} if m is not None else {}
+        info = getattr(self, "race_info", {})
+        self.res.violations.append(Violation(self.prop, "concurrent-completes:" + role, desc + " [A completes %s, B completes %s at A's lock operation %s, %s]" % (
+            info.get("a"), info.get("b"), info.get("preempted_at"), info.get("site")), self.name, dict(decisions=list(I.path.taken), script=list(self.log)), model, detail))
+
+
+def confirm_pair(v, name, cfg, attempts=30):
+    """Two OS threads released by one barrier, each completing one of the two acts, on the real engine; then everything open is answered and the
+    same flow oracles are evaluated on what the engine shows."""
+    from . import replay
+    from .flow import ReplayRun, concrete_inputs as flow_inputs
+    model, inputs = scen.catalogue()[name]
+    script = v.decisions["script"]
+    pair = [e for e in script if "race_pair" in e]
+    if not pair:
+        return None, None
+    pair = pair[0]
+    sc_inputs = flow_inputs(inputs, v.model)
+    steps = [{"op": "start", "mid": model["id"], "inputs": sc_inputs},
+             {"op": "race_pair", "nids": pair["race_pair"], "options": pair["options"]},
+             {"op": "answer_all", "max": 12, "options": {}}]
+    seen = []
+    want = v.role.split(":", 1)[1]
+    for a in range(attempts):
+        out = replay.run({"config": {"keep_processes": True}, "threads": 4, "models": [model], "steps": steps, "known_nids": sorted(replay.node_ids(model))})
+        if "error" in out:
+            seen.append(out["error"][:200])
+            continue
+        obs = replay.normalise(out)
+        roles = []
+        views = [dict(obs, procs=sn["procs"], messages=obs["messages"][: sn["nmsg"]], events=obs["events"][: sn["nevents"]]) for sn in obs["snapshots"] if sn["procs"]] + [obs]
+        rr = None
+        for view in views:
+            rr = ReplayRun(name, cfg, v.prop, view, model)
+            rr.log = []
+            for o in cfg.oracles:
+                f = getattr(rr, "q_" + o, None)
+                if f:
+                    f("replay")
+            roles += [r for r, d in rr.found]
+        for o in cfg.oracles:
+            f = getattr(rr, "r_" + o, None)
+            if f:
+                rr.found = []
+                f(v, obs)
+                roles += [r for r, d in rr.found]
+        seen.append(sorted(set(roles))[:4])
+        if want in roles:
+            return True, dict(scenario=steps, attempt=a, roles=sorted(set(roles)), tasks=[(t["nid"], t["state"]) for t in (obs["procs"][0]["tasks"] if obs["procs"] else [])])
+    return False, dict(tried=seen[-5:])
+
+
+def run_pair_race(I, name, cfg_kw, prop):
+    cfg = Cfg(**cfg_kw)
+    snaps = {}
+
+    def one(I, res):
+        r = PairRaceRun(I, res, name, cfg, prop)
+        orig = r.install_event_monitor
+
+        def inst(rebind=False):
+            orig(rebind)
+            install_trace_context(r)
+
+        r.install_event_monitor = inst
+        r.run(snaps)
+
+    res = explore(I, "pair-race:" + name, one, max_paths=cfg.max_paths, seed=cfg_kw.get("seed", 0))
+    seen = {}
+    for v in res.violations:
+        if v.role in seen:
+            v.confirmed, v.replay = seen[v.role]
+            continue
+        if len(seen) >= 6:
+            continue
+        okc, info = confirm_pair(v, name, cfg)
         v.confirmed, v.replay = okc, info
         seen[v.role] = (okc, info)
     return res
